@@ -980,6 +980,9 @@ def _is_boolean_expr(v):
         (isinstance(v, ast.Call) and isinstance(v.func, ast.Name) and v.func.id in ("isinstance", "hasattr", "bool", "any", "all"))
 
 
+_CLASS_NAMES = set()
+
+
 class _Canon(ast.NodeTransformer):
     def __init__(self):
         self.count = 0
@@ -1002,6 +1005,10 @@ class _Canon(ast.NodeTransformer):
     def visit_IfExp(self, n):
         self._const_right(n.test)
         self.generic_visit(n)
+        # P42: a conditional expression whose test folded to a constant is its branch
+        if isinstance(n.test, ast.Constant) and isinstance(n.test.value, bool):
+            self.count += 1
+            return n.body if n.test.value else n.orelse
         return n
 
     def visit_While(self, n):
@@ -1188,6 +1195,18 @@ class _Canon(ast.NodeTransformer):
             test = ast.Call(func=ast.Name(id="hasattr", ctx=ast.Load()), args=[copy.deepcopy(n.args[0]), copy.deepcopy(n.args[1])], keywords=[])
             get = ast.Call(func=ast.Name(id="getattr", ctx=ast.Load()), args=[n.args[0], n.args[1]], keywords=[])
             return ast.copy_location(ast.IfExp(test=ast.copy_location(test, n), body=ast.copy_location(get, n), orelse=n.args[2]), n)
+        # P42: callable(<constant>) -> False, callable(<builtin container type / class name>) -> True; list() -> [], dict() -> {}
+        if isinstance(n.func, ast.Name) and n.func.id == "callable" and len(n.args) == 1 and not n.keywords:
+            a = n.args[0]
+            if isinstance(a, ast.Constant):
+                self.count += 1
+                return ast.copy_location(ast.Constant(value=False), n)
+            if isinstance(a, ast.Name) and (a.id in ("list", "dict", "set", "tuple") or (a.id[:1].isupper() and a.id in _CLASS_NAMES)):
+                self.count += 1
+                return ast.copy_location(ast.Constant(value=True), n)
+        if isinstance(n.func, ast.Name) and n.func.id in ("list", "dict") and not n.args and not n.keywords:
+            self.count += 1
+            return ast.copy_location(ast.List(elts=[], ctx=ast.Load()) if n.func.id == "list" else ast.Dict(keys=[], values=[]), n)
         # P38: partial(f, a, k=v)(b, m=w) -> f(a, b, k=v, m=w)
         if isinstance(n.func, ast.Call) and ast.unparse(n.func.func).split(".")[-1] == "partial" and n.func.args and not any(isinstance(a, ast.Starred) for a in n.func.args + n.args) \
                 and all(k.arg for k in n.func.keywords + n.keywords):
@@ -1359,8 +1378,9 @@ def _literal_names(node):
     """a literal tuple/list of string constants -> list of str, else None"""
     if isinstance(node, (ast.Tuple, ast.List)) and node.elts and all(isinstance(e, ast.Constant) and isinstance(e.value, str) for e in node.elts):
         return [e.value for e in node.elts]
-    if isinstance(node, (ast.Tuple, ast.List)) and node.elts and all(isinstance(e, ast.Tuple) and e.elts and all(isinstance(x, ast.Constant) for x in e.elts) for e in node.elts):
-        return [tuple(x.value for x in e.elts) for e in node.elts]
+    if isinstance(node, (ast.Tuple, ast.List)) and node.elts and all(isinstance(e, ast.Tuple) and e.elts and all(isinstance(x, (ast.Constant, ast.Name)) for x in e.elts)
+                                                                     and isinstance(e.elts[0], ast.Constant) for e in node.elts):
+        return [tuple(x.value if isinstance(x, ast.Constant) else x.id for x in e.elts) for e in node.elts]
     return None
 
 
@@ -1661,7 +1681,74 @@ def partial_to_lambda(prog, known):
     return count
 
 
+def inline_generator_delegation(prog, known):
+    """P43: a method whose whole body is `return self.h(a, ..)` / `yield from self.h(a, ..)` / `for e in self.h(a, ..): yield e`
+    with h a *new* generator method found in the class or its bases gets h's body back (parameters replaced by the arguments,
+    which must be plain names)."""
+    if known is None:
+        return 0
+    count = 0
+    for m in prog.modules.values():
+        for cls in [n for n in m.tree.body if isinstance(n, ast.ClassDef)]:
+            if cls.name not in prog.classes:
+                continue
+            pool = {}
+            for k in prog.mro(cls.name):
+                for st in k.node.body:
+                    if isinstance(st, ast.FunctionDef) and "%s.%s" % (k.name, st.name) not in known and any(isinstance(x, (ast.Yield, ast.YieldFrom)) for x in ast.walk(st)):
+                        pool.setdefault(st.name, st)
+            if not pool:
+                continue
+            for host in [st for st in cls.body if isinstance(st, ast.FunctionDef) and st.args.args]:
+                body = [b for b in host.body if not (isinstance(b, ast.Expr) and isinstance(b.value, ast.Constant))]
+                if len(body) != 1:
+                    continue
+                b = body[0]
+                call = None
+                if isinstance(b, ast.Return) and isinstance(b.value, ast.Call):
+                    call = b.value
+                elif isinstance(b, ast.Expr) and isinstance(b.value, ast.YieldFrom) and isinstance(b.value.value, ast.Call):
+                    call = b.value.value
+                elif isinstance(b, ast.For) and isinstance(b.iter, ast.Call) and len(b.body) == 1 and isinstance(b.body[0], ast.Expr) and isinstance(b.body[0].value, ast.Yield) \
+                        and isinstance(b.target, ast.Name) and isinstance(b.body[0].value.value, ast.Name) and b.body[0].value.value.id == b.target.id and not b.orelse:
+                    call = b.iter
+                if call is None or not isinstance(call.func, ast.Attribute) or call.func.attr not in pool or call.func.attr == host.name:
+                    continue
+                me = host.args.args[0].arg
+                recv = ast.unparse(call.func.value)
+                h = pool[call.func.attr]
+                args = list(call.args)
+                if recv != me:
+                    if recv in prog.classes and args and isinstance(args[0], ast.Name) and args[0].id == me:
+                        args = args[1:]
+                    else:
+                        continue
+                params = [a.arg for a in h.args.args[1:]]
+                if call.keywords or len(args) != len(params) or not all(isinstance(a, (ast.Name, ast.Constant)) for a in args) or h.args.vararg or h.args.kwarg:
+                    continue
+                sub = dict(zip(params, args))
+                sub[h.args.args[0].arg] = ast.Name(id=me, ctx=ast.Load())
+                if any(isinstance(x, ast.Name) and x.id in sub and isinstance(x.ctx, ast.Store) for x in ast.walk(h)):
+                    continue
+
+                class S(ast.NodeTransformer):
+                    def visit_Name(self, x):
+                        if x.id in sub and isinstance(x.ctx, ast.Load):
+                            return ast.copy_location(copy.deepcopy(sub[x.id]), x)
+                        return x
+                nb = [S().visit(copy.deepcopy(x)) for x in h.body]
+                if isinstance(nb[0], ast.Expr) and isinstance(nb[0].value, ast.Constant) and isinstance(nb[0].value.value, str) and len(nb) > 1:
+                    nb = nb[1:]
+                host.body = nb
+                count += 1
+        if count:
+            ast.fix_missing_locations(m.tree)
+    return count
+
+
 def canonicalise(prog):
+    _CLASS_NAMES.clear()
+    _CLASS_NAMES.update(prog.classes)
     total = keyword_defaults(prog)
     total += explicit_base_calls(prog)
     total += unroll_name_loops(prog)
